@@ -178,7 +178,10 @@ def run(ck: Checker):
     ck.analysed_func(f, cfg)
     init = {n.id for n in cfg.nodes if isinstance(n.ast, ast.Assign) and isinstance(n.ast.targets[0], ast.Subscript) and dotted(n.ast.targets[0].value) == 'self.id_to_refcount'}
     mk = [n for n in cfg.nodes if header_expr(n) is not None and any(dotted(c.func) == 'self._make_proxy' for c in calls_in(header_expr(n)))]
-    ck.need(init and mk, f'{f.key}: count initialisation / proxy construction not found')
+    ck.need(mk, f'{f.key}: proxy construction not found')
+    if not init:
+        ck.ob('C13-4', f, mk[0].ast, False, 'create() never initialises the reference-count entry: the first incref of the new proxy raises KeyError (or counts from a stale entry)')
+        init = {mk[0].id}
     # the init is under `if ident not in self.id_to_refcount` : passing that test counts
     tests = {n.id for n in cfg.nodes if n.kind == 'test' and 'id_to_refcount' in norm_text(n.ast)}
     p = path_avoiding(cfg, [cfg.entry], {mk[0].id}, avoid=init | tests)
